@@ -131,10 +131,22 @@ def insertion_cases(rng, n):
         cur = main
         parts = ['\\usepackage{babel}\n']
         exp = []          # (language of the surrounding part, word before, word after)
+        thresh = rng.choice([1, 2, 3, 5])
+        def w2():
+            # a "word" of the insertion is what stands between white space: hyphenated compounds, apostrophes and
+            # abbreviation dots do not make it several words
+            k = rng.random()
+            if k < 0.55:
+                return w()
+            if k < 0.75:
+                return '-'.join(w() for _ in range(rng.randint(2, 4)))
+            if k < 0.9:
+                return w() + "'" + w()[1:]
+            return w() + '.' + w()[1:] + '.'
         for _ in range(rng.randint(1, 3)):
             other = rng.choice([l for l in L if l != cur])
             a, b, c2 = w(), w(), w()
-            ins = ' '.join(w() for _ in range(rng.randint(1, 2)))
+            ins = ' '.join(w2() for _ in range(rng.randint(1, thresh)))
             form = rng.choice(['\\foreignlanguage{%s}{%s}', '\\begin{otherlanguage*}{%s}%s\\end{otherlanguage*}'])
             parts.append('%s %s %s %s %s.\n' % (a, b, form % (L[other], ins), c2, w()))
             exp.append((cur, b, c2))
@@ -142,7 +154,7 @@ def insertion_cases(rng, n):
                 cur = rng.choice(list(L))
                 parts.append('\\selectlanguage{%s}\n' % L[cur])
                 parts.append('%s %s.\n' % (w(), w()))
-        out.append({'src': ''.join(parts), 'opts': {'lang': main, 'pack': '*'}, 'multi': True, 'thresh': rng.choice([2, 3, 5]), 'kind': 'insertion', 'exp': exp})
+        out.append({'src': ''.join(parts), 'opts': {'lang': main, 'pack': '*'}, 'multi': True, 'thresh': thresh, 'kind': 'insertion', 'exp': exp})
     return out
 
 def judge_insertion(c, r):
